@@ -121,8 +121,8 @@ class Rule:
                                 break
                             except (TypeError, ValueError):
                                 pass
-                    datum_path = DataPath(*datum_path)
-                    set_datum(data_copy, datum_path, datum)
+                    if datum_path:
+                        set_datum(data_copy, datum_path, datum)
 
         return RuleTest(self, data_copy)
 
